@@ -30,9 +30,10 @@ META = {
             "perspective wrapped in a spy that logs insert/delete; VIOLATION iff a real Panic / Check-without-recall run "
             "touched facts or emitted effects, a recall effect is not marked recalled, or the fact writes / effects / stored "
             "facts differ from the reference outcome.",
-    "note": "Bounds: quick — policy blocks of <= 3 statements (nested ones counted), nesting 1, 3 finish bodies, 3 recall "
-            "blocks, 3 match-arm bodies (5754 programs); thorough — <= 4 statements, nesting 2, 5 finish bodies, 6 recall "
-            "blocks. Trusted: the renderer, the spy perspective (delegating wrapper around the real perspective), the "
+    "note": "Bounds: quick — every policy block of <= 3 statements (nested ones counted), nesting <= 2, 5 finish bodies, 6 "
+            "recall blocks, 3 match-arm bodies (12 266 programs, each with the run-time values of its conditions); thorough — "
+            "additionally every flat block of <= 4 statements (37 831) and ~10 000 random derivations with <= 4 statements, "
+            "nesting 2 (that space has 307 704 programs; its enumeration does not fit the time budget). Trusted: the renderer, the spy perspective (delegating wrapper around the real perspective), the "
             "harness' decoder of stored keys/values, TestFfiEnvelope seal/open, the spec's reading of the statement "
             "semantics (policy book + documented compiler behaviour: finish exits Normal, Check in a recall block; the end of "
             "a policy block panics). Compiler-rejected programs are skipped and counted; > 2% rejected is a tool error.",
@@ -82,9 +83,23 @@ def run(ctx):
         case = json.load(open(ctx.replay))["case"]["input"]
         ctx.absorb(ctx.run_engine(vh, "stmts", [case]))
         return
-    cfg = "MC_PolicyStmts_thorough.cfg" if ctx.thorough else "MC_PolicyStmts.cfg"
+    cfg = "MC_PolicyStmts.cfg"
     r = ctx.tlc("MC_PolicyStmts", cfg, timeout=3000, cache=True)
     cases = r.replays
+    states = r.states
+    nsim = 0
+    if ctx.thorough:
+        r2 = ctx.tlc("MC_PolicyStmts", "MC_PolicyStmts_thorough.cfg", timeout=3000, cache=True)
+        states += r2.states
+        r3 = ctx.tlc("MC_PolicyStmts", "Sim_PolicyStmts.cfg", workers=1, simulate=100, depth=101, timeout=3000,
+                     cache=True)
+        seen = {json.dumps(c, sort_keys=True) for c in cases}
+        for c in r2.replays + r3.replays:
+            k = json.dumps(c, sort_keys=True)
+            if k not in seen:
+                seen.add(k)
+                cases.append(c)
+        nsim = len(r3.replays)
     if not cases:
         raise verif.ToolError("TLC emitted no programs")
     cl = classes(cases)
@@ -136,12 +151,15 @@ def run(ctx):
     ran = len(cases) - rejected
     ctx.cov.update({
         "exhaustive": True,
-        "constants": open(os.path.join(verif.TLA, cfg)).read().split("CONSTANTS")[1].split("INVARIANTS")[0].split("\n"),
+        "constants": {"exhaustive": "MaxStmts=3 MaxDepth=2, 5 finish bodies, 6 recall blocks, 3 match-arm bodies"
+                      + ("; MaxStmts=4 MaxDepth=0" if ctx.thorough else ""),
+                      "simulation": "100 x 100 random derivations, MaxStmts=4 MaxDepth=2" if ctx.thorough else "none"},
         "programs": ran,
         "programs_generated": len(cases),
         "programs_rejected_by_compiler": rejected,
         "disagreements_checked": ran,
-        "states": r.states,
+        "states": states,
+        "random_derivations": nsim,
         "classes": dict(cl),
         "explanation": "every generated program is compiled and run once (its condition values are part of the program); "
                        "disagreements_checked counts programs whose real exit / fact writes / effects / stored facts were "
